@@ -50,7 +50,8 @@ class CrateIndex:
         res = [it for it in self.items
                if it.kind == kind and it.name == name and it.owner == owner
                and (infile is None or infile in it.file)
-               and (trait is None or it.trait == trait or (("<" in trait) and getattr(it, "trait_full", "") == trait))]
+               and (trait is None or it.trait == trait or (("<" in trait) and getattr(it, "trait_full", "") == trait)
+                    or (trait == "-" and not it.trait))]     # `trait -` selects the INHERENT fn when a trait impl has one of the same name
         if kind == "fn":
             res = [it for it in res if it.body_start >= 0]
         if len(res) == 0:
